@@ -181,3 +181,15 @@ Fixpoint keys_distinct (t : td) : bool :=
   | TCls _ inner => keys_distinct inner
   | _ => true
   end.
+
+(* the files of two states / listings agree as mappings (decidable: compared on the keys that occur) *)
+Definition content_eqb (a b : content) : bool :=
+  match a, b with
+  | CCells d c, CCells d' c' => dtype_eqb d d' && (Nat.eqb (List.length c) (List.length c')) && forallb (fun xy => Z.eqb (fst xy) (snd xy)) (combine c c')
+  | CJson _, CJson _ => true        (* compared structurally by the harness on the printed form *)
+  | CPickle _, CPickle _ => true
+  | _, _ => false
+  end.
+Definition fs_agree (a b : list (floc * content)) : bool :=
+  forallb (fun kc => match mget floc_eqb (fst kc) b with Some c => content_eqb (snd kc) c | None => false end) a
+  && forallb (fun kc => match mget floc_eqb (fst kc) a with Some _ => true | None => false end) b.
